@@ -92,6 +92,25 @@ def _invariants(state, where):
     return None
 
 
+def _definitely_invalid(arg):
+    """judged from the argument itself (not from how it was generated): wrong type, unknown preset, missing '?',
+    a key outside the documented forms, or a capacity that is not a non-negative int (bool is left undecided)"""
+    if isinstance(arg, str):
+        return arg not in R.PRESETS
+    if not isinstance(arg, dict):
+        return True
+    if "?" not in arg:
+        return True
+    for k, v in arg.items():
+        if not R.key_is_documented(k):
+            return True
+        if isinstance(v, bool):
+            continue
+        if not isinstance(v, int) or v < 0:
+            return True
+    return False
+
+
 def _documented_keys(arg):
     return isinstance(arg, dict) and "?" in arg and all(R.key_is_documented(k) for k in arg)
 
@@ -172,6 +191,12 @@ def apply_step(state, step, info):
         r = call(sf.set_semantic_constraints, passed, expected=(ValueError,))
         klass = step["klass"]
         if r[0] == "ok":
+            if _definitely_invalid(arg):
+                try:
+                    recover(state)      # put the model's table back before anything else is looked at
+                except Exception:  # noqa
+                    pass
+                return Fail("set:invalid_accepted:" + klass, arg=repr(arg)[:300])
             # accepted after all (e.g. bool capacities): then it is the table in force
             if isinstance(arg, dict):
                 state.table = dict(arg)
@@ -180,9 +205,6 @@ def apply_step(state, step, info):
             else:
                 return Fail("set:accepted_non_table", arg=repr(arg)[:200])
             state.alpha = set(sf.get_semantic_robust_alphabet())
-            base = klass.split("+")[0]
-            if base in ("missing_?", "bad_value", "bad_preset", "bad_type") or (base == "bad_key" and not _documented_keys(arg)):
-                return Fail("set:invalid_accepted:" + klass, arg=repr(arg)[:300])
             cl.add("candidate_invalid_accepted")
             return _invariants(state, "after_accepted_candidate")
         if r[0] == "exc" and klass not in ("nonstring_key", "odd_value"):
